@@ -46,7 +46,7 @@ function gen1(rng, params, mode) {
   }
   // a cycle that passes through an ALIAS of a named type (`Comment = { replies: Thread }`, `Thread = CommentList`,
   // `CommentList = Comment[]`), entered from either end
-  if (multi && rng.chance(1, 5)) {
+  if (rng.chance(1, multi ? 5 : 10)) {
     const k = names.length, cn = "Cm" + k, tn = "Th" + k, ln = "Cl" + k;
     env.push([cn, [A("object"), [["id", [A("typeof"), "string"]], ["replies", rng.chance(1, 3) ? [A("opt"), [A("ref"), tn]] : [A("ref"), tn]]], []]]);
     env.push([tn, rng.chance(1, 4) ? [A("desc"), "a thread", [A("ref"), ln]] : [A("ref"), ln]]);
@@ -55,7 +55,8 @@ function gen1(rng, params, mode) {
     const ends = [[A("ref"), cn], [A("ref"), tn], [A("ref"), ln]].filter(() => rng.chance(2, 3));
     if (ends.length < 2) ends.push([A("ref"), tn], [A("ref"), cn]);
     for (let i = ends.length - 1; i > 0; i--) { const j = rng.below(i + 1); const t = ends[i]; ends[i] = ends[j]; ends[j] = t; }
-    rts.splice(0, Math.min(ends.length, rts.length), ...ends.slice(0, Math.max(2, Math.min(ends.length, rts.length))));
+    if (multi) rts.splice(0, Math.min(ends.length, rts.length), ...ends.slice(0, Math.max(2, Math.min(ends.length, rts.length))));
+    else rts.splice(0, 1, rng.chance(1, 2) ? ends[0] : [A("object"), [["p", ends[0]], ["q", ends[1]]], []]);
   }
   // variants of a discriminated union that are NAMED types (what the compiler emits for `A | B` over declared object
   // types): their definitions are stored under the type's own name, and an override may target them
